@@ -26,6 +26,7 @@ import (
 	"github.com/hashicorp/nodeenrollment"
 	"github.com/hashicorp/nodeenrollment/registration"
 	"github.com/hashicorp/nodeenrollment/rotation"
+	"github.com/hashicorp/nodeenrollment/storage/inmem"
 	"github.com/hashicorp/nodeenrollment/types"
 	"google.golang.org/protobuf/proto"
 	"google.golang.org/protobuf/reflect/protoreflect"
@@ -674,6 +675,135 @@ func (x *sealedScn) transplant(w wrapping.Wrapper, rawX, clearX, rawY proto.Mess
 	}
 }
 
+// setLoads: the refusals and the transplants again for the loader that reads all records of one node ID
+// (types.LoadNodeInformationSetByNodeId): two records of one node sealed under the wrapper, in a third of the
+// cases next to an older record of the same node that was written before any wrapper was configured.
+// Loading the set without the wrapper or with another one must fail, and so must a load after a sealed
+// field of one record was copied into the other - whatever position the affected record has in the set.
+func (x *sealedScn) setLoads(sw wrapping.Wrapper, X, Y *types.NodeInformation) {
+	r := x.r
+	in, err := inmem.New(x.ctx)
+	if err != nil {
+		r.Broken("sealed: inmem: " + err.Error())
+		return
+	}
+	ol := world.NewOrderedLoader(in)
+	nid := "set-node-" + hex.EncodeToString(world.RandBytes(4))
+	A, B := proto.Clone(X).(*types.NodeInformation), proto.Clone(Y).(*types.NodeInformation)
+	A.NodeId, B.NodeId = nid, nid
+	clear := map[string]*types.NodeInformation{A.Id: A, B.Id: B}
+	for _, m := range []*types.NodeInformation{A, B} {
+		if err := proto.Clone(m).(*types.NodeInformation).Store(x.ctx, ol, nodeenrollment.WithStorageWrapper(sw)); err != nil {
+			x.failed = "Store of a harness-built NodeInformation failed: " + err.Error()
+			return
+		}
+	}
+	ids := []string{A.Id, B.Id}
+	withClear := x.sc.Variant%3 == 0
+	if withClear {
+		Z := x.makeInfo(false)
+		Z.NodeId = nid
+		if err := proto.Clone(Z).(*types.NodeInformation).Store(x.ctx, ol); err != nil {
+			x.failed = "Store of a harness-built NodeInformation (no wrapper) failed: " + err.Error()
+			return
+		}
+		clear[Z.Id] = Z
+		ids = append(ids, Z.Id)
+	}
+	// the affected record first, in the middle or last
+	switch x.sc.Variant % 4 {
+	case 1:
+		ids[0], ids[1] = ids[1], ids[0]
+	case 2:
+		ids[0], ids[len(ids)-1] = ids[len(ids)-1], ids[0]
+	case 3:
+		ids[1], ids[len(ids)-1] = ids[len(ids)-1], ids[1]
+	}
+	ol.SetOrder(nid, ids)
+	wit := func(detail string) sealedWitness {
+		return x.witness(sealedWitness{Side: "direct", Record: sealedNI + " set of node " + nid, Detail: fmt.Sprintf("%s; records in load order %v; clear record present: %v", detail, ids, withClear)})
+	}
+	load := func(opt ...nodeenrollment.Option) (set *types.NodeInformationSet, err error) {
+		if p, st := engine.Guard(func() { set, err = types.LoadNodeInformationSetByNodeId(x.ctx, ol, nid, opt...) }); p != nil {
+			r.Violation("panic:"+engine.LibraryFrame(st), fmt.Sprintf("LoadNodeInformationSetByNodeId panicked: %v", p), wit("panic"))
+			return nil, fmt.Errorf("panic: %v", p)
+		}
+		return set, err
+	}
+	// control: with the wrapper every record comes back as stored
+	set, err := load(nodeenrollment.WithStorageWrapper(sw))
+	if err != nil || set == nil || len(set.Nodes) != len(ids) {
+		n := 0
+		if set != nil {
+			n = len(set.Nodes)
+		}
+		r.Violation("roundtrip-mismatch:NodeInformationSet", fmt.Sprintf("loading the records of one node ID with the wrapper they were stored under returned %d of %d records (err=%v)", n, len(ids), err), wit("control"))
+		return
+	}
+	for _, got := range set.Nodes {
+		want := clear[got.Id]
+		if want == nil || len(sealedDiff(want, got)) > 0 {
+			r.Violation("roundtrip-mismatch:NodeInformationSet", "a record loaded by node ID with the same wrapper differs from what was stored", wit("control, record "+got.Id))
+			return
+		}
+	}
+	r.Count("set_load_controls_ok", 1)
+	// refusals
+	kid, _ := sw.KeyId(x.ctx)
+	for _, o := range []struct {
+		what string
+		opt  []nodeenrollment.Option
+	}{
+		{"no wrapper", nil},
+		{"same key id, different key", []nodeenrollment.Option{nodeenrollment.WithStorageWrapper(world.NewAead(kid))}},
+		{"different key id and key", []nodeenrollment.Option{nodeenrollment.WithStorageWrapper(world.NewAead("other-" + kid))}},
+	} {
+		if set, err := load(o.opt...); err == nil {
+			n := 0
+			if set != nil {
+				n = len(set.Nodes)
+			}
+			r.Violation("set-load-without-the-wrapper-succeeded", fmt.Sprintf("the records of one node ID, stored under a wrapper, load with %s (%d of %d records returned)", o.what, n, len(ids)), wit(o.what))
+		} else {
+			r.Count("set_load_refused_without_the_wrapper", 1)
+		}
+	}
+	// transplants between the two sealed records
+	rawA, errA := sealedRawLoad(x.ctx, in, sealedNI, A.Id)
+	rawB, errB := sealedRawLoad(x.ctx, in, sealedNI, B.Id)
+	if errA != nil || errB != nil {
+		r.Broken(fmt.Sprintf("sealed: raw load: %v %v", errA, errB))
+		return
+	}
+	for _, f := range sealedFields(sealedNI) {
+		src := f.get(rawA)
+		if len(src) == 0 || bytes.Equal(src, f.get(A)) || len(f.get(rawB)) == 0 {
+			continue
+		}
+		edited := proto.Clone(rawB).(nodeenrollment.MessageWithId)
+		f.set(edited, append([]byte{}, src...))
+		if err := sealedPut(x.ctx, in, edited); err != nil {
+			r.Broken("sealed: store: " + err.Error())
+			return
+		}
+		r.Count("set_transplants_attempted", 1)
+		set, err := load(nodeenrollment.WithStorageWrapper(sw))
+		if err == nil {
+			n := 0
+			if set != nil {
+				n = len(set.Nodes)
+			}
+			r.Violation("set-load-after-transplant-succeeded:"+f.name, fmt.Sprintf("sealed field %s of one record was copied into another record of the same node ID and loading the node's records still succeeds (%d of %d records returned)", f.name, n, len(ids)), wit("transplant of "+f.name))
+		} else {
+			r.Count("set_transplants_refused", 1)
+		}
+		if err := sealedPut(x.ctx, in, proto.Clone(rawB).(nodeenrollment.MessageWithId)); err != nil {
+			r.Broken("sealed: store: " + err.Error())
+			return
+		}
+	}
+}
+
 // transplantStored loads the stored forms of two records of a side and runs
 // the transplants in both directions
 func (x *sealedScn) transplantStored(sdX *sealedSide, clearX proto.Message, sdY *sealedSide, clearY proto.Message) {
@@ -872,6 +1002,7 @@ func (x *sealedScn) runDirect() {
 		x.roundTrip(sd, X)
 		x.roundTrip(sd, Y)
 		x.transplantStored(sd, X, sd, Y)
+		x.setLoads(sw, X, Y)
 	case sealedNC:
 		X, Y := x.makeCreds(nodeenrollment.CurrentId, sc.Prev), x.makeCreds(nodeenrollment.NextId, sc.Prev)
 		x.secretsOfCreds(X)
@@ -1697,6 +1828,9 @@ func runSealed(c *engine.Ctx) engine.Result {
 	r.Require("fault_flow_faults_delivered", 40)
 	r.Require("substring_searches", 5000)
 	r.Require("transplant_controls_ok", 100)
+	r.Require("set_load_controls_ok", 4)
+	r.Require("set_load_refused_without_the_wrapper", 12)
+	r.Require("set_transplants_refused", 4)
 	r.Require("flow_step:rotate-node-credentials", 10)
 	r.Require("server_wrapper_key_rollovers", 10)
 	r.Require("root_stores_with_state_option", 3)
